@@ -49,7 +49,10 @@ def check(ctx, relevant=None):
                           'a settings file with valid per-author grants is refused',
                           key=core.canon({'what': 'per-author grants refused'}))
             continue
-        for user, listed in cfg + [('nobody', [])]:
+        # other people whose login merely resembles a listed one (part of it, an extension of it) are granted nothing
+        others = [('nobody', [])] + [(n, []) for n in ('bot', 'svc', 'svc-bot2', 'car', 'carol-x', 'a', 'e')
+                                     if n not in raw]
+        for user, listed in cfg + others:
             job = PullRequestJob(pull_request=SimpleNamespace(id=1, author=user, comments=[]), settings={},
                                  bert_e=SimpleNamespace(settings=_Settings(pr_author_options=loaded),
                                                         project_repo=None, git_repo=None))
